@@ -11,7 +11,9 @@ RULE = ("results of all seven result types (arp, tcp, icmp/udp, socks, elastic, 
         "server maps (elastic) and reflectively filled docker Info/Version structs; all 256 one-byte strings and boundary "
         "two/three-byte strings through both escapers; JSON texts (valid and damaged) through encoding/json as the decoder "
         "tie; logger histories (closed / cancelled after k / with flush ticks) and unique-logger histories with random "
-        "repetition patterns; one big unique-logger history (the 524288 addresses of 10.0.0.0/13, each seen three times "
+        "repetition patterns; producer bursts (2-12 ARP / TCP / ICMP reply frames of 2-5 hosts with repeats through the real "
+        "processors into the real result channel, fully queued before the real JSON / unique logger prints them); one big "
+        "unique-logger history (the 524288 addresses of 10.0.0.0/13, each seen three times "
         "interleaved) judged on the implementation alone; non-trivial = a result/string that is actually encoded, a text Go accepts, a history with at "
         "least one result (uniq: with a repeated ID); distinct by generator string")
 
@@ -22,7 +24,7 @@ CODES = {1: "MarshalJSON bytes differ from the model's enc_record", 2: "the byte
          21: "the model decoder and encoding/json disagree on accepting the text", 22: "the model decoder yields another tree than encoding/json",
          31: "bytes written by the real logger differ from one line per taken result, in order",
          41: "results passed on by the real UniqueLogger differ from the model's first sightings",
-         51: "standard output of the live ARP logger (as the command builds it) differs from the lines of the first sightings"}
+         51: "output of the unique-logger chain (live ARP logger as the command builds it / unique logger after a producer burst) differs from the lines of the first sightings"}
 
 KINDS = ["arp", "tcp", "icmp", "socks", "elastic", "docker"]
 
@@ -198,9 +200,9 @@ def run(ctx):
     rows = []
     if ctx.harness_build("c14"):
         if quick:
-            args = ["-seed", ctx.seed, "-n", 2000, "-hist", 200, "-dec", 600, "-str", 800, "-big", 524288]
+            args = ["-seed", ctx.seed, "-n", 2000, "-hist", 200, "-dec", 600, "-str", 800, "-big", 524288, "-burst", 240]
         else:
-            args = ["-seed", ctx.seed, "-n", 30000, "-hist", 2500, "-dec", 6000, "-str", 6000, "-pairs", "-big", 2097152]
+            args = ["-seed", ctx.seed, "-n", 30000, "-hist", 2500, "-dec", 6000, "-str", 6000, "-pairs", "-big", 2097152, "-burst", 6000]
         rows = run_harness(ctx, "cases.jsonl", args, timeout=3000)
     skipped = [o for o in rows if o["t"] == "skip"]
     rows = [o for o in rows if o["t"] != "skip"]
